@@ -26,7 +26,7 @@ CLOCKS = ("Clock", "Process Time", "Run Time", "Block Time", "Scope Time")
 # Block, End block, End blocks, Mark, Simulate with unit (Temp) / without unit (X), Simulate off (both), Base, Wait, Long,
 # Watch, plus Stop / Restart so that the run-start and run-stop hooks of the tags (on_start / on_stop) are exercised.
 # SetOut / Pause so that the safe-state / restore-state writes of the outputs happen too.
-KINDS_FULL = ["K", "EB", "EBS", "M", "SiT", "Si", "Si0", "SoT", "So", "Bs", "W", "L", "Wa", "St", "Rs", "S", "P"]
+KINDS_FULL = ["K", "EB", "EBS", "M", "SiT", "Si", "Si0", "SoT", "So", "Bs", "W", "L", "Wa", "St", "Rs", "S", "V", "P"]
 KINDS_SUB = ["K", "EB", "EBS", "M", "SiT", "Si", "Si0", "SoT", "So", "W", "Wa", "Rs"]
 KINDS_SUB4 = ["K", "EB", "M", "SiT", "Si", "Si0", "SoT", "So", "Wa", "Rs"]
 INPUT_DRIVEN = ("Tot", "In1", "X", "Accumulated Volume", "Block Volume")
